@@ -18,8 +18,9 @@ def fmt_val(v, t):
 class ModelRun(object):
     """expected transcript of a script; stops (truncates) at the first indeterminate / out-of-contract step"""
 
-    def __init__(self, m, script, ninst=2):
+    def __init__(self, m, script, ninst=2, byteorder='little'):
         self.m = m
+        self.byteorder = byteorder
         self.trace = []
         self.objs = {}
         self.bind = {}
@@ -107,7 +108,7 @@ class ModelRun(object):
         if o == 'inst':
             _, k = op
             try:
-                inst = interp.Instance(m, self.imports_for(k), tag=k, hazards=self.hz, events=self.ev)
+                inst = interp.Instance(m, self.imports_for(k), tag=k, hazards=self.hz, events=self.ev, byteorder=self.byteorder)
                 self.insts[k] = inst
                 self.flush_trace()
                 self.lines.append('I ok')
